@@ -39,6 +39,20 @@ claim('C16',
       'untouched.',
       'Integer coefficients only (exact in TLC); graphs up to length 4 and ~25 nodes in traces; model universe bounded '
       'as listed in the evidence; wrappers on merge_edges / simplify / rename_*_id observe only.')
+claim('C05',
+      'TLC model checking of OpChains.tla (the compiler with any minimum vertex cover, all chain multisets of a bounded '
+      'universe; negative control reproducing finding F1) + TLC trace validation (TraceOpChains.tla) of every site of '
+      'real from_opchains runs and of MPO.from_opgraph, with exact free-algebra denotation',
+      'The compiler is modelled stage by stage (partition, cover, emit, finish); TLC checks for every chain list of the '
+      'universe that the meaning of the anchored state (graph so far + vlist_next + coeffs_next) never changes, that '
+      'construction never aborts, that the result is consistent, of the right length, and that multiplying out the '
+      'symbolic MPO layers gives the same polynomial. The real compiler is bound by trace validation: its state at '
+      'every site iteration is recorded and TLC evaluates the same invariants on it, checks the repartition and that '
+      'the cover used is a minimum cover, recomputes the polynomial of the returned graph, and checks the MPO tensors, '
+      'bond charges and node map entry by entry under integer operator maps.',
+      'Integer coefficients / operator maps; zero boundary charges; exhaustive universe L<=2 (<=2-3 chains), random '
+      'lists up to L=6 and 9 chains; the step relation between consecutive sites is checked through the invariant, '
+      'not by id-exact refinement (fresh ids are a gauge freedom).')
 
 def main():
     props = [json.loads(l) for l in open(os.path.join(VERIF, 'properties.jsonl'))]
